@@ -63,7 +63,7 @@ SPECS = [
              csig='struct to_number_result to_integer_i64(const char* s, size_t length, int64_t* np)', contract=I64, rules=I_RULES),
 ]
 HARNESSES = [
-    Harness('to_integer_u64', 'h_to_integer_u64', enforce='to_integer_u64', loop_contracts=True, method='LC', props=['C04', 'C12', 'C13', 'C18'], expect_classes={'loop_invariant_step': 4}, pre_unwind=5, timeout=1800,
+    Harness('to_integer_u64', 'h_to_integer_u64', enforce='to_integer_u64', loop_contracts=True, method='LC', props=['C04', 'C12', 'C13', 'C18'], expect_classes={'loop_invariant_step': 4}, pre_unwind=4, timeout=1800,
             note='the four digit loops are under loop contracts; the outer state loop runs at most three times (prefix, radix letter, digits) and is unwound with an unwinding assertion'),
     Harness('to_integer_i64', 'h_to_integer_i64', enforce='to_integer_i64', replace=['to_integer_u64'], method='LF', props=['C04', 'C12', 'C13', 'C18']),
 ]
